@@ -645,6 +645,17 @@ def c13_checks(c, delays, stim, n, opts, caps, a_ctrl, T, cuda):
             if (int(cl[sim.ppo_offset + i]), int(cc[sim.ppo_offset + i])) != (int(cl[l]), int(cc[l])):
                 out.append(('capture-requires:output-slot-is-the-captured-region', f'{node.name}: output slot ({int(cl[sim.ppo_offset + i])},{int(cc[sim.ppo_offset + i])}), captured line {l} at ({int(cl[l])},{int(cc[l])})'))
                 return out
+    # ... and the region of a captured line is the region its waveform is written to (a fan-out branch aliases its stem exactly: memory-map clauses M1 / M3 / M4)
+    try:
+        from . import map_drv
+        capl = caps if not isinstance(caps, int) else [caps] * (len(c.lines) + 3)
+        for cl_, m_ in map_drv.check_map(sim, c, bool(opts.get('strip_forks')), bool(opts.get('c_reuse')), capl, 4, scratch=False):
+            if cl_.startswith('M3') or cl_.startswith('M4') or cl_.startswith('M1'):
+                out.append((f'capture-requires:{cl_}', m_))
+                return out
+    except Exception as e:  # noqa
+        out.append(('capture-requires:exception', repr(e)))
+        return out
     for i, node in enumerate(sn):
         if len(node.ins) == 0 or node.ins[0] is None:
             continue
@@ -693,6 +704,36 @@ def c13_checks(c, delays, stim, n, opts, caps, a_ctrl, T, cuda):
         got = np.asarray(sim.abuf)
         if nacc > 0 and (got.shape[0] < nacc or not np.array_equal(got[:nacc].astype(np.int64), want[:nacc])):
             out.append(('activity' + (':cuda' if cuda else ''), f'abuf = {got.tolist()}, weighted transition count of the produced waveforms = {want.tolist()}'))
+    # history: a propagation restricted to the first k lanes, then a capture at another time -- every lane's summary (also of the lanes that were not propagated
+    # again) is what the waveform in memory encodes at *that* capture time
+    if not cuda and n >= 2 and not out:
+        try:
+            finite = sorted({float(t) for i, node in enumerate(sn) if len(node.ins) > 0 and node.ins[0] is not None for lane in range(n)
+                             for t in (WD.read_wave(sim, int(cl[sim.ppo_offset + i]), int(cc[sim.ppo_offset + i]), lane) or ([], 0))[0] if t > float(W.TMIN)})
+            T2 = (finite[len(finite) // 2] + 0.125) if finite else 1.0
+            if T is not None and T2 == T:
+                T2 += 0.25
+            sim.c_prop(sims=max(1, n // 2))
+            sim.c_to_s(time=T2)
+            s2 = np.asarray(sim.s)
+            for i, node in enumerate(sn):
+                if len(node.ins) == 0 or node.ins[0] is None:
+                    continue
+                x = sim.ppo_offset + i
+                for lane in range(n):
+                    w = WD.read_wave(sim, int(cl[x]), int(cc[x]), lane)
+                    if w is None:
+                        continue
+                    init, eat, lst, fin, acc, val, ovl = WD.capture_oracle(w[0], w[1], T2)
+                    got = (int(s2[3, i, lane]), int(s2[6, i, lane]), float(s2[7, i, lane]), int(s2[8, i, lane]), int(s2[10, i, lane]))
+                    want = (init, fin, float(val), val, ovl)
+                    if got != want:
+                        out.append(('capture:after-partial-propagation', f'{node.name} lane {lane} after c_prop(sims={max(1, n // 2)}) and c_to_s(time={T2}): s[3,6,7,8,10] = {got}, '
+                                                                         f'the waveform in memory {w[0]} encodes {want}'))
+                        return out
+        except Exception as e:  # noqa
+            out.append(('capture:after-partial-propagation:exception', repr(e)))
+            return out
     return out
 
 
